@@ -50,6 +50,35 @@ theorem gen_save (u : UBT) (n : Nat) (old : Bytes) :
       simp [h1, h1', h2, h2', pyWithOpen, fRead, fSeek, fWrite, throw, throwThe, MonadExceptOf.throw, pure, Except.pure,
         writeAt_zero, torn, frame_eq]
       rw [writeAt_after]
-      simp [List.drop_drop, Nat.add_comm]
+      have ht : List.take (1 + (body (pyStrNat n) u).length) (body (pyStrNat n) u ++ ['\x00'])
+          = body (pyStrNat n) u ++ ['\x00'] := List.take_of_length_le (by simp; omega)
+      have h0 : Char.ofNat 0 = '\x00' := rfl
+      simp [List.drop_drop, Nat.add_comm, ht, h0]
+
+/-- the two `write` calls of `save` are contiguous from offset 0: together they are one write of `frame` -/
+theorem gen_save_writes (u : UBT) (n : Nat) (old b : Bytes) (h : saveUB old (pyStrNat n) u = .ok b) :
+    (IH5UserBlock.save u n ⟨old, []⟩).2.writes =
+      [(0, body (pyStrNat n) u), ((body (pyStrNat n) u).length, ['\x00'])] ∧
+    body (pyStrNat n) u ++ ['\x00'] = frame (pyStrNat n) u := by
+  rw [gen_save, h]
+  exact ⟨rfl, rfl⟩
+
+/-- **every byte-wise prefix of what `save` writes is a torn block of `Model/Crash.lean`**: the first `j` bytes
+of the first `write`, or all of it and the first `i` bytes of the second -/
+theorem gen_save_prefix (size : List Char) (u : UBT) (old : Bytes) :
+    (∀ j, j ≤ (body size u).length → writeAt old 0 ((body size u).take j) = torn j old (frame size u)) ∧
+    (∀ i, i ≤ 1 → writeAt (writeAt old 0 (body size u)) (body size u).length (['\x00'].take i)
+        = torn ((body size u).length + i) old (frame size u)) := by
+  constructor
+  · intro j hj
+    rw [writeAt_zero, frame_eq, torn, List.take_append_of_le_length hj]
+    simp [List.length_take, Nat.min_eq_left hj]
+  · intro i hi
+    rw [writeAt_zero, writeAt_after, frame_eq, torn]
+    have : List.take ((body size u).length + i) (body size u ++ ['\x00']) = body size u ++ (['\x00'] : Bytes).take i := by
+      rw [List.take_append]
+      simp
+    rw [this]
+    simp [List.drop_drop, List.length_take, Nat.min_eq_left hi, Nat.add_comm]
 
 end MetadorModel.Bridge.PatchSteps.Bytes
